@@ -16,15 +16,52 @@ LIBDBUS_MODEL = dict(name='dbus_message_* / dbus_connection_* / dbus_error_* acc
                      note='ghost-definition: opaque libdbus objects are ghost records (spec/bus_typestate.h); public API preconditions (_dbus_return_if_fail) are asserted')
 UNITS = []
 
+# one line per callee contract (stubs/c03_stubs.c); 'replaced' = the contract is enforced by another unit of this family or of C06
+NOTES = {
+    'bus_dispatch_matches': ('bus/dispatch.c', 'replaced', 'contract POST_bus_dispatch_matches enforced (B <= 3 recipients) by unit C05.matches'),
+    'send_one_message': ('bus/dispatch.c', 'replaced', 'contract enforced by unit C15.send_one'),
+    'bus_transaction_capture': ('bus/connection.c', 'replaced', 'REQUIRES sanitized message, nothing decided yet, not captured before; enforced (B <= 3 monitors) by unit C18.capture'),
+    'bus_transaction_capture_error_reply': ('bus/connection.c', 'replaced', 'REQUIRES error set and a non-zero serial of the refused message; enforced by unit C18.capture_error'),
+    'bus_transaction_send_error_reply': ('bus/connection.c', 'replaced', 'enforced by unit C05.error_reply'),
+    'bus_transaction_send_from_driver': ('bus/connection.c', 'replaced', 'enforced by unit C03.from_driver'),
+    'bus_context_check_security_policy': ('bus/bus.c', 'replaced', 'REQUIRES sanitized and already captured message; refusal sets an error; inactive sender only Hello (enforced by unit C06.gate)'),
+    'bus_driver_handle_message': ('bus/driver.c', 'stub', 'REQUIRES captured once and admitted by the gate; TRUE for an unregistered sender => it is Hello and the connection is now active with the message re-stamped (unit C03.hello); handler table itself not in this family'),
+    'bus_activation_activate_service': ('bus/activation.c', 'stub', 'REQUIRES sanitized, captured, auto-start, ownerless name; arbitrary verdict, error on failure (C19)'),
+    'bus_registry_lookup': ('bus/services.c', 'stub', 'ghost map with one entry (hash table never executed): the destination has an owner or not'),
+    'bus_service_get_primary_owners_connection': ('bus/services.c', 'stub', 'returns the head of the owner queue of the service found by this step (non-NULL: OWN_INV, C04)'),
+    'bus_transaction_new': ('bus/connection.c', 'stub', 'NULL (OOM) or the transaction of this step; at most one per step'),
+    'bus_transaction_execute_and_free': ('bus/connection.c', 'stub', 'ghost-definition: counts; REQUIRES a live transaction not yet finished'),
+    'bus_transaction_cancel_and_free': ('bus/connection.c', 'stub', 'ghost-definition: counts; REQUIRES a live transaction not yet finished'),
+    'bus_transaction_send': ('bus/connection.c', 'stub', 'ghost-definition: stages one copy for the destination or fails (OOM); REQUIRES a bus-written sender'),
+    'bus_connection_send_oom_error': ('bus/connection.c', 'stub', 'REQUIRES the preallocated error and a non-zero serial; consumes the preallocation'),
+    'bus_connection_preallocate_oom_error': ('bus/connection.c', 'stub', 'may fail any number of times'),
+    'bus_connection_disconnected': ('bus/connection.c', 'stub', 'ghost-definition: counts'),
+    'bus_connection_is_active/is_monitor/get_name/get_context/get_registry/get_activation/get_loginfo': ('bus/connection.c', 'stub', 'accessors over the ghost connection record; active <=> has a unique name'),
+    'bus_context_log': ('bus/bus.c', 'stub', 'logging only'),
+    'bus_matchmaker_get_recipients': ('bus/signals.c', 'stub', '<= 3 distinct connections, never the addressed recipient (C07 B units)'),
+}
+
+
+def callee(*names):
+    return [dict(name=n, file=NOTES[n][0], status=NOTES[n][1], note=NOTES[n][2]) for n in names]
+
+
 UNITS.append(dict(
     name='C03.dispatch', props=['C03', 'C05', 'C18', 'C10', 'C14'], kind='P', route='hybrid', bus=True,
     tus=[dict(file='bus/dispatch.c', overlay='c03_dispatch.ovl', include_as='VERIF_TU')], harness='harness/c03_dispatch.c',
     replace_calls=bind(['bus_dispatch', 'bus_context_log']), timeout=600, expect_s=30,
     allow_skip_msg=True,   # constant-bound loops of the harness/stubs and libc strcmp carry no contract (they are not under contract); the guard for bus_dispatch's own loop is must_have
-    must_have=['Check invariant after step for loop bus_dispatch.0', 'post.C03.stamped', 'post.C18.capture-once', 'post.C05.owner', 'post.C14.finish-once', 'precondition of bus_transaction_capture', 'precondition of bus_dispatch_matches: the routed message has a non-zero serial'],
-    functions=[dict(name='bus_dispatch', file='bus/dispatch.c', status='enforced', contract='typestate postconditions C03/C05/C18/C10/C14 (harness/c03_dispatch.c)'),
-               LIBDBUS_MODEL],
-    assumptions=[]))
+    must_have=['Check invariant after step for loop bus_dispatch.0', 'post.C03.stamped', 'post.C18.capture-once', 'post.C05.owner', 'post.C14.finish-once', 'precondition of bus_transaction_capture', 'precondition of bus_dispatch_matches'],
+    functions=[dict(name='bus_dispatch', file='bus/dispatch.c', status='enforced', contract='typestate postconditions C03/C05/C18/C10/C14 (harness/c03_dispatch.c); wait-for-memory loop closed by a loop contract')]
+    + callee('bus_transaction_capture', 'bus_context_check_security_policy', 'bus_driver_handle_message', 'bus_activation_activate_service', 'bus_dispatch_matches',
+             'bus_transaction_send_error_reply', 'bus_registry_lookup', 'bus_service_get_primary_owners_connection', 'bus_transaction_new',
+             'bus_transaction_execute_and_free', 'bus_transaction_cancel_and_free', 'bus_connection_send_oom_error', 'bus_connection_preallocate_oom_error',
+             'bus_connection_disconnected', 'bus_connection_is_active/is_monitor/get_name/get_context/get_registry/get_activation/get_loginfo', 'bus_context_log')
+    + [LIBDBUS_MODEL],
+    assumptions=['precondition: the dispatched message has a non-zero serial (S: "This must not be zero"; enforced by the loader, C01)',
+                 'the destination name, if owned, has a primary owner (OWN_INV, C04)',
+                 'extraction drop (DFCC cannot handle variadic callees): format string and format arguments of 3 bus_context_log calls and 1 dbus_set_error call in bus_dispatch are not evaluated (harness/c03_dispatch.c)',
+                 'documented exception of the code, not of the specification: a destination-less non-signal from an unregistered connection is left to libdbus (NOT_YET_HANDLED) instead of closing the connection; the literal reading is unit C03.dispatch.strict (red)']))
 
 UNITS.append(dict(
     name='C15.send_one', props=['C15', 'C05', 'C18'], kind='P', route='stub', bus=True, entry='harness_send_one',
@@ -36,7 +73,7 @@ UNITS.append(dict(
                dict(name='bus_transaction_send', file='bus/connection.c', status='stub', note='ghost-definition: stages one copy for the destination or fails (OOM)'),
                dict(name='bus_transaction_capture_error_reply', file='bus/connection.c', status='stub', note='contract enforced by unit C18.capture_error'),
                LIBDBUS_MODEL],
-    assumptions=['precondition: the routed message has a non-zero serial (wire messages: C01; bus-made broadcasts: NOT established by bus_driver_send_service_owner_changed, see report)']))
+    assumptions=['bus-made broadcasts arrive with serial 0; send_one_message assigns one before reporting a refusal (fix 281c87a), checked in C15.send_one']))
 
 UNITS.append(dict(
     name='C05.matches', props=['C05', 'C15', 'C18'], kind='B', route='stub', bus=True, entry='harness_matches',
@@ -135,7 +172,7 @@ UNITS.append(dict(
                  'injectivity of decimal printing (_dbus_string_append_int = snprintf("%d"))']))
 
 UNITS.append(dict(
-    name='C18.owner_changed', props=['C18', 'C03', 'C10'], kind='P', route='stub', bus=True, entry='harness_owner_changed',
+    name='C18.owner_changed', props=['C18', 'C10'], kind='P', route='stub', bus=True, entry='harness_owner_changed',
     tus=DRV, harness='harness/c03_driver.c', replace_calls=bind(['bus_driver_send_service_owner_changed']), timeout=300, expect_s=5,
     must_have=['post.C03.driver-signal', 'post.C18.capture-then-route', 'precondition of bus_dispatch_matches'],
     functions=[dict(name='bus_driver_send_service_owner_changed', file='bus/driver.c', status='enforced', contract='NameOwnerChanged: sender org.freedesktop.DBus, three strings, captured once then routed once as a broadcast, released once'),
